@@ -563,15 +563,26 @@ impl Stream {
         let group = self.consumer_groups.get_group(group_name)
             .ok_or_else(|| format!("NOGROUP No such consumer group {} for stream", group_name))?;
         
-        // Get entries after the specified ID
+        // An explicit ID reads the consumer's own history: its pending entries after that ID.
+        // Nothing new becomes pending and the group's last delivered ID does not move.
+        if after_id != StreamId::max() {
+            let ids = group.redeliver_pending(consumer_name, after_id, count);
+            let data = self.data.lock().unwrap();
+            let entries: Vec<StreamEntry> = ids
+                .iter()
+                .filter_map(|id| {
+                    data.entries.binary_search_by(|e| e.id.cmp(id))
+                        .ok()
+                        .map(|idx| data.entries[idx].clone())
+                })
+                .collect();
+            return Ok(entries);
+        }
+        
+        // ">" means only new entries: the ones after the group's last delivered ID
         let data = self.data.lock().unwrap();
-        let entries = if after_id == StreamId::max() {
-            // Special case: ">" means only new entries
-            let last_delivered = group.get_last_id();
-            data.range_after(&last_delivered, count).entries
-        } else {
-            data.range_after(&after_id, count).entries
-        };
+        let last_delivered = group.get_last_id();
+        let entries = data.range_after(&last_delivered, count).entries;
         
         drop(data);
         
